@@ -220,6 +220,23 @@ fn families(thorough: bool) -> Vec<(String, String)> {
     ] {
         v.push((name.to_string(), text.to_string()));
     }
+    // legal corner programs: every way a program can end (a taken jump / loop / call-free fall to a label that is
+    // the very last thing in the file, after a hlt, an ordinary instruction or nothing; with and without final newline)
+    for j in ["jmp e_", "je e_", "loop e_", "jcxz e_", ""] {
+        for last in ["hlt\n", "inc ax\n", "print reg\n", ""] {
+            for tail in ["e_:\n", "e_:", "e_: ; end\n", "e_:\n\n\n"] {
+                let text = format!("start:\nxor cx, cx\n{}\n{}{}", j, last, tail);
+                v.push((format!("program end: {:?} / {:?} / {:?}", j, last, tail), text));
+            }
+        }
+    }
+    // ... and every kind of data definition whose image reaches or crosses the last byte of memory
+    for def in ["db 5", "dw 5", "db [2]", "dw [2]", "db \"ab\"", "dw \"ab\"", "db [1,2]", "dw [1,2]", "db [2;7]", "dw [2;7]", "db -1", "dw -1", "dw offset s_"] {
+        for pad in [13usize, 14, 15] {
+            let text = format!("set 0xffff\ndb [{}]\ns_: {}\nt_: db 9\nstart:\nmov al, byte s_\nmov bl, byte t_\nprint mem 0xFFFFD : 3\nprint mem 0 : 4\n", pad, def);
+            v.push((format!("data at the end of memory: {} after {} bytes", def, pad), text));
+        }
+    }
     // names of half a megabyte and a megabyte in every place a name can stand
     for n in [400_000usize, 1_000_000] {
         let nm = "a".repeat(n);
